@@ -931,11 +931,20 @@ def self_names_of(func):
 
 def _prelude(func, sw):
     """statements that precede the switch in its enclosing block (same activation)"""
-    for comp in func.body.find('CompoundStmt'):
-        for i, k in enumerate(comp.kids):
-            if k is sw:
-                return [x for x in comp.kids[:i] if x is not None]
-    return []
+    out = []
+    cur = sw
+    while True:
+        found = None
+        for comp in func.body.find('CompoundStmt'):
+            for i, k in enumerate(comp.kids):
+                if k is cur:
+                    found = (comp, i)
+        if found is None:
+            break
+        comp, i = found
+        out = [x for x in comp.kids[:i] if x is not None] + out
+        cur = comp          # a plain nested block `{ ...; switch ... }` continues its parent block
+    return out
 
 
 def arm_descriptors(prog, func, switch_index=0, with_prelude=False):
